@@ -122,8 +122,10 @@ def gen_root(rng, prop):
             return {'kind': 'val', 'v': ['list', [gen_plain(rng, 1) for _ in range(rng.randint(0, 5))]]}
         return {'kind': 'val', 'v': gen_plain_dict(rng)}
     if prop == 'C03':
+        # 'val': an untyped tree, the source of spec-less members that get
+        # assigned (by reference) to typed fields of the other roots
         k = rng.choice(['node', 'node', 'TL1', 'TL2', 'TL3', 'TD1', 'TD2', 'nodes', 'ptyped',
-                        'ptyped'])
+                        'ptyped', 'val', 'val'])
     elif prop == 'C09':
         k = rng.choice(['rec', 'rec', 'cb', 'node'])
     elif prop == 'C07':
@@ -2000,6 +2002,8 @@ ORACLES['C03'] = C03Oracle
 
 
 CANARIES_BY_PROP['C03'] = {
+    'validate_foreign_member_in_place': _canary(
+        _D, 'Dict', '_formalized_value', 'if isinstance(value, (dict, list)):', 'if False:'),
     'dict_skips_apply_for_symbolic': _canary(
         _D, 'Dict', '_formalized_value', 'if field and flags.is_type_check_enabled():',
         'if field and flags.is_type_check_enabled() and not isinstance(value, base.Symbolic):'),
@@ -2672,6 +2676,8 @@ ORACLES['C09'] = C09Oracle
 
 
 CANARIES_BY_PROP['C09'] = {
+    'validate_foreign_member_in_place': _canary(
+        _D, 'Dict', '_formalized_value', 'if isinstance(value, (dict, list)):', 'if False:'),
     'notify_top_down': _canary(
         _B, 'Symbolic', '_notify_field_updates', 'reverse=True):', 'reverse=False):'),
     'cache_reset_skipped': _canary(
